@@ -150,6 +150,19 @@ def _getfig_discipline(ck, f, wrapper_of=None):
             ok = any(isinstance(x, ast.Return) and x.value is not None for x in s.body)
     ck.ob("GETFIG", construct, ok, expected="with getFig the figure (the callee's result) is returned", found=[unparse(r) for r in rets][:3],
           slot="returns-figure", where=f.loc())
+    # the test that decides whether the figure is handed back must be the TRUTH of getFig (what `if getFig:` asks): an identity test against
+    # True turns 1, numpy.bool_(True) and every other truthy request into "no figure"
+    tests = [n.test for n in ast.walk(f.node) if isinstance(n, (ast.If, ast.IfExp))]
+    for t in tests:
+        tt = unparse(bind.inline_locals(f, t)).replace(" ", "")
+        if "getFig" not in tt:
+            continue
+        if tt in ("getFig", "bool(getFig)", "notgetFig", "notbool(getFig)", "notnotgetFig"):
+            continue
+        strict = tt in ("getFigisTrue", "getFigisnotFalse", "TrueisgetFig", "type(getFig)isbool", "isinstance(getFig,bool)andgetFig", "notgetFigisTrue", "getFigisFalse", "getFigisnotTrue")
+        ck.shape(strict, "%s: test on getFig in a form lcsa cannot relate to its truth value (%s)" % (f.qual, unparse(t)), f.loc(t))
+        ck.ob("GETFIG", construct, False, expected="the figure is returned whenever getFig is true (as `if getFig:` decides)", found=unparse(bind.inline_locals(f, t)), slot="getFig-test", where=f.loc(t),
+              note="an identity test against True/False answers differently for 1, 0, numpy.bool_ and other values the truth test accepts")
 
 
 def _plots_module(ck, prog):
@@ -391,6 +404,30 @@ def _sinks(ck, prog):
         h = prog.fn(PLT, name)
         c3 = h.mod.relpath + ":" + h.qual
         want = {"plt.title": ("title", None), "plt.xlim": ("xLim", 1), "plt.ylim": ("yLim", 1)}
+        # MUST: the title and both axis limits are set on EVERY way out of the finaliser (an early return for `legendOn=False`, say, must not
+        # skip them) - a typestate walk over the statements, the state being the set of these calls already made
+        from lcsa import flow as _flow
+
+        def _made(fn_, node, depth=0):
+            out = set()
+            for cl in _flow.calls_in(node):
+                fnm = unparse(cl.func)
+                if fnm in want:
+                    out.add(fnm)
+                elif depth < 3:
+                    cal = prog.resolve_call(fn_, cl)
+                    if cal is not None and cal.mod.rel == PLT:
+                        out |= _made(cal, cal.node, depth + 1)          # a helper of the plotting module: what it sets counts
+            return out
+
+        def _step(node, st):
+            return frozenset(set(st) | _made(h, node))
+        fall, exits = _flow.run(h.body(), frozenset(), _step)
+        ways = [("end of function", st_) for st_ in fall] + [("return at line %d" % e_.node.lineno, e_.state) for e_ in exits if e_.kind == "return"]
+        for where_, st_ in ways:
+            missing = sorted(set(want) - set(st_))
+            ck.ob("MUST-sink", c3, not missing, expected="plt.title, plt.xlim and plt.ylim are called before the finaliser returns", found={"way out": where_, "not called": missing} if missing else "all called",
+                  slot="finalise:%s" % where_, where=h.loc(), note="the requested title / axis limits must reach the figure for every argument combination")
         for fn, (par, pos) in want.items():
             call = _one_call(ck, h, fn)
             a = call.args[0] if call.args else None
